@@ -34,9 +34,9 @@ Definition run_check (c address : Z) (adj : Z) (adjv : Z) (op : Z) (ctx : option
 (* crash address / memory operation of the synthesized exception record (Windows access
    violation carries the kind in information[0] and the address in information[1]) *)
 Definition p_address (os code nparams info1 excaddr : Z) : Z :=
-  if (os =? 0) && ((code =? 3221225477) || (code =? 3221225478)) && (2 <=? nparams) then info1 else excaddr.
+  if (os =? 0) && ((code =? WIN_EXCEPTION_ACCESS_VIOLATION) || (code =? WIN_EXCEPTION_IN_PAGE_ERROR)) && (2 <=? nparams) then info1 else excaddr.
 Definition p_op (os code nparams info0 : Z) : Z :=
-  if (os =? 0) && (code =? 3221225477) && (1 <=? nparams)
+  if (os =? 0) && (code =? WIN_EXCEPTION_ACCESS_VIOLATION) && (1 <=? nparams)
   then g_memop_of_access info0
   else 0.
 Definition run_pipeline (c os code nparams info0 info1 excaddr : Z) (ctx : option (Z * list Z))
@@ -55,7 +55,7 @@ Definition q_address (c : gcpu) (os code nparams info1 excaddr : Z) : Z :=
   match pointer_width c with WBits32 => a mod 4294967296 | _ => a end.
 Definition q_reason (c : gcpu) (os code flags nparams info0 : Z) : reason :=
   if os =? 0 then
-    (if (code =? 3221225477) && (1 <=? nparams) && ((info0 =? 0) || (info0 =? 1) || (info0 =? 8))
+    (if (code =? WIN_EXCEPTION_ACCESS_VIOLATION) && (1 <=? nparams) && ((info0 =? 0) || (info0 =? 1) || (info0 =? 8))
      then RWinAccessViolation info0 else ROther)
   else if os =? 1 then
     (if (code =? 11) && negb ((1 <=? flags) && (flags <=? 4)) then RLinuxGeneral 11 flags
